@@ -81,24 +81,3 @@ Proof.
   split; [apply Rlt_le, Rdiv_lt_0_compat; [lra|apply pow_lt; lra]|].
   unfold Rdiv. rewrite !Rmult_1_l. apply Rinv_le_contravar; [apply pow_lt; lra|apply Rle_pow; [lra|lia]].
 Qed.
-
-From Osmo Require Import C10.Model C10.Spec C10.ProofsChain C10.ProofsTwap C10.ProofsFull.
-
-(* composed: for every history, with the model's own twap_log and exp2, a geometric TWAP over a non-zero accumulator
-   difference is 2^(+-m) up to 5.1e-8 relative plus 3e-18 *)
-Theorem geom_twap_value t0 h0 w0 w1 evs p G now q0 start stop f v :
-  history twap_log t0 h0 w0 w1 evs p G -> (r_time (p_recent p) <= now)%Z ->
-  (t0 <= start)%Z -> (max_keep t0 evs <= start)%Z -> (ms start < ms stop)%Z ->
-  twap_between twap_log exp2 now p q0 true start stop = QVal f v ->
-  let diff := integral (fun tau => glogv twap_log (price_at (spec_events t0 w0 w1 evs) true 0 tau)) (ms start) (ms stop) in
-  diff <> 0%Z ->
-  let m := Z.quot diff (ms stop - ms start) in
-  let T := Rpower 2 (dR (Z.abs m)) in
-  let invert := (((m <? 0)%Z && q0) || (negb (m <? 0)%Z && negb q0))%bool in
-  let target := if invert then (/ T)%R else T in
-  (Rabs (dR v - target) <= 51 / 10 ^ 9 * target + 3 / 10 ^ 18)%R.
-Proof.
-  intros Hh Hn Hs Hk Hm Hq diff Hd.
-  apply (geom_value exp2 (1 / 10 ^ 19) eta_ok exp2_accurate).
-  eapply geom_conditional; eassumption.
-Qed.
